@@ -225,13 +225,11 @@ class Simulation:
 
         Events are recreated in their original creation order (so that ties at
         equal timestamps repeat), with their completion hooks; events that were
-        already cancelled when the first run started are not replayed.
+        already cancelled when the first run started are replayed as cancelled.
         """
         specs = self._pre_run_event_specs
-        skipped = self._pre_run_cancelled or set()
+        cancelled = self._pre_run_cancelled or set()
         for i in sorted(range(len(specs)), key=lambda i: specs[i][6]._sort_index):
-            if i in skipped:
-                continue
             time, event_type, target, daemon, meta, hooks, _original = specs[i]
             ctx = {"metadata": dict(meta)} if meta else None
             fresh = Event(
@@ -242,6 +240,8 @@ class Simulation:
                 on_complete=list(hooks),
                 context=ctx,
             )
+            if i in cancelled:
+                fresh.cancel()
             self._event_heap.push(fresh)
 
     def run(self) -> SimulationSummary:
